@@ -11,16 +11,22 @@ from concurrent.futures import ThreadPoolExecutor
 def run(p): subprocess.run([os.path.join(ROOT, "bin/check"), p, "--tier", "quick"], cwd=ROOT, env=env, capture_output=True, text=True)
 with ThreadPoolExecutor(6) as ex: list(ex.map(run, props))
 hits = {}     # file -> {line: count}
+branches = {} # file -> {(line, branch index): times taken}
 for d in glob.glob(os.path.join(cov, "*")):
     for gcda in glob.glob(os.path.join(d, "*.gcda")):
-        r = subprocess.run(["gcov", "-t", "-o", d, gcda], capture_output=True, text=True, cwd=d)
-        cur = None
+        r = subprocess.run(["gcov", "-t", "-b", "-c", "-o", d, gcda], capture_output=True, text=True, cwd=d)
+        cur = None; lastn = None
         for l in r.stdout.splitlines():
+            mb = re.match(r"branch\s+(\d+) (taken (\d+)|never executed)", l)
+            if mb and cur and lastn and "/repo/" in cur and ("/src/" in cur):
+                key = (lastn, int(mb.group(1)))
+                branches.setdefault(cur, {}); branches[cur][key] = branches[cur].get(key, 0) + (int(mb.group(3)) if mb.group(3) else 0)
+                continue
             m = re.match(r"\s*-:\s*0:Source:(.*)", l)
             if m: cur = os.path.realpath(os.path.join(d, m.group(1))) if not os.path.isabs(m.group(1)) else m.group(1); continue
             m = re.match(r"\s*([0-9#=\-*]+)\*?:\s*(\d+):", l)
             if m and cur and "/repo/" in cur and ("/src/" in cur or "/include/" in cur):
-                c, n = m.group(1), int(m.group(2))
+                c, n = m.group(1), int(m.group(2)); lastn = n
                 if c == "-": continue
                 k = 0 if c.startswith(("#", "=")) else int(c.rstrip("*"))
                 hits.setdefault(cur, {}); hits[cur][n] = hits[cur].get(n, 0) + k
@@ -32,4 +38,13 @@ for f in sorted(hits):
     src = open(f).read().split("\n")
     print("%s: %d of %d executable lines never executed" % (f.replace("/repo/", ""), len(un), len(hits[f])))
     for n in un: print("    %4d: %s" % (n, src[n - 1].strip()[:110]))
+bt = bm = 0
+for f in sorted(branches):
+    un = sorted(k for k, v in branches[f].items() if v == 0 and hits.get(f, {}).get(k[0], 0) > 0)
+    bt += len(branches[f]); bm += len(un)
+    if un:
+        src = open(f).read().split("\n")
+        print("%s: %d of %d branch outcomes never taken (on executed lines)" % (f.replace("/repo/", ""), len(un), len(branches[f])))
+        for n in sorted(set(k[0] for k in un)): print("    %4d: %s" % (n, src[n - 1].strip()[:110]))
+print("branches: %d of %d outcomes never taken" % (bm, bt))
 print("total: %d of %d executable lines of the zix sources are never executed by the quick-tier correspondence runs" % (miss, tot))
